@@ -243,6 +243,12 @@ U_TAGS = Unit(P + '/Geo_Container.compute_tags', ['Geo_Container.compute_tags'],
 
 
 # ================================================================ register_source
+def _cur(d):
+    if 'geobj' not in d:
+        raise EngineError('the loop structure of register_load differs from the one the contract is written for')
+    return d['geobj']
+
+
 INLINE_REG = ('Pulse_Container.__len__', 'Pulse_Container.__getitem__', 'Excitation.register',
               '_Load.add_pulse', 'Geo_Container.__len__', 'Geo_Container.__getitem__')
 
@@ -400,7 +406,7 @@ def t_register_load(eng):
     eng.loop_specs[(Q, 1)] = LoopSpec([('attr', load, 'pulses')],
                                       lambda e, b, p, i: {('attr', load, 'pulses'): _app(b[('attr', load, 'pulses')], p)},
                                       P + '.register_load.all.inner', [])
-    eng.loop_specs[(Q, 1)].key_fn = lambda e, env: [cur_obj['geobj'].ident]
+    eng.loop_specs[(Q, 1)].key_fn = lambda e, env: [_cur(cur_obj).ident]
     if form == 0:
         bad = z3.Or(term(pulse) < 0, term(pulse) >= term(N))
     elif form == 1:
